@@ -1817,6 +1817,21 @@ class AtTimezone(Term):
         self.zone = zone
         self.interval = interval
 
+    @builder
+    def replace_table(self, current_table: Optional["Table"], new_table: Optional["Table"]) -> "AtTimezone":
+        """
+        Replaces all occurrences of the specified table with the new table. Useful when reusing fields across
+        queries.
+
+        :param current_table:
+            The table to be replaced.
+        :param new_table:
+            The table to replace with.
+        :return:
+            A copy of the term with the tables replaced.
+        """
+        self.field = self.field.replace_table(current_table, new_table)
+
     def get_sql(self, **kwargs):
         sql = '{name} AT TIME ZONE {interval}\'{zone}\''.format(
             name=self.field.get_sql(**kwargs),
